@@ -4,7 +4,7 @@
 // holds the real ledger and executes the real code. The worker is a separate process because the property is about process
 // death: a Go panic is recovered in the worker only to be REPORTED (site taken from the stack trace, then the worker exits:
 // the node has no recover on these paths); a fatal runtime error (stack overflow, out of memory, concurrent map write)
-// kills the worker and its stderr gives the site; silence for 10 s is a timeout. Exec turns each of these into a
+// kills the worker and its stderr gives the site; silence for 25 s is a timeout. Exec turns each of these into a
 // predicate failure with a class `<how>:<site>:<shape>`, so that a different crash is a different class.
 //
 // Line kinds (all self-contained; the ledger state under every case is the same persisted setup state):
@@ -25,9 +25,11 @@ import (
 	"os"
 	"os/exec"
 	"regexp"
+	"strconv"
 	"runtime/debug"
 	"strings"
 	"sync"
+	"syscall"
 	"time"
 
 	"verif/harness/internal/hx"
@@ -141,6 +143,8 @@ func workerExec(line string) (res wres) {
 }
 
 func workerLoop() {
+	// a hard cap on the address space: an allocation the node could only serve by eating the machine is a `fatal error: out of memory` here
+	syscall.Setrlimit(syscall.RLIMIT_AS, &syscall.Rlimit{Cur: 12 << 30, Max: 12 << 30})
 	in := bufio.NewReaderSize(os.Stdin, 1<<24)
 	out := bufio.NewWriter(os.Stdout)
 	defer func() { theWorld.close() }()
@@ -180,7 +184,7 @@ var theWorker *worker
 
 func startWorker() *worker {
 	cmd := exec.Command(os.Args[0])
-	cmd.Env = append(os.Environ(), "C12_WORKER=1", "GOTRACEBACK=single", "GOMEMLIMIT=3GiB", fmt.Sprintf("C12_SNAP=/verif/build/tmp/c12-snap-%d", os.Getpid()))
+	cmd.Env = append(os.Environ(), "C12_WORKER=1", "GOTRACEBACK=single", "GOMEMLIMIT=6GiB", fmt.Sprintf("C12_SNAP=/verif/build/tmp/c12-snap-%d", os.Getpid()))
 	in, _ := cmd.StdinPipe()
 	outp, _ := cmd.StdoutPipe()
 	errp, _ := cmd.StderrPipe()
@@ -292,7 +296,18 @@ func fatalSite(tb string) (what, site, nt string) {
 	return what, site, nt
 }
 
-const workerTimeout = 45 * time.Second
+const workerTimeout = 25 * time.Second
+
+// a transaction that may burn 3*10^7 gas gets the time 3*10^7 opcodes need on a loaded machine
+func timeoutFor(line string) time.Duration {
+	f := strings.SplitN(line, " ", 3)
+	if f[0] == "V" && len(f) > 1 {
+		if g, err := strconv.ParseUint(f[1], 10, 64); err == nil && g > 1000000 {
+			return workerTimeout + time.Duration(g/1000000)*3*time.Second
+		}
+	}
+	return workerTimeout
+}
 
 func lineKind(line string) string {
 	f := strings.SplitN(line, " ", 3)
@@ -324,11 +339,15 @@ func Exec(line string) hx.Result {
 	var a ans
 	select {
 	case a = <-done:
-	case <-time.After(workerTimeout):
+	case <-time.After(timeoutFor(line)):
+		_, _, nt := fatalSite(w.stderr())
 		w.kill()
 		theWorker = nil
 		cls := "timeout:" + lineKind(line)
-		return hx.Result{Out: "TIMEOUT", Fail: "no answer within " + workerTimeout.String() + " (unbounded loop / recursion)", Class: cls, Kind: cls, Key: line}
+		if nt != "" {
+			cls += ":" + nt
+		}
+		return hx.Result{Out: "TIMEOUT", Fail: "no answer within " + timeoutFor(line).String() + " (unbounded loop / recursion)", Class: cls, Kind: cls, Key: line}
 	}
 	var r wres
 	if a.err != nil || a.s == "" || json.Unmarshal([]byte(a.s), &r) != nil {
@@ -380,6 +399,6 @@ func main() {
 		Corpus:  corpus(),
 		N:       map[string]int{"quick": 6000, "thorough": 120000},
 		Isolate: true,
-		Timeout: 100 * time.Second,
+		Timeout: 200 * time.Second,
 	})
 }
